@@ -753,6 +753,8 @@ def run(ctx):
                          "parties x userId variants x e-mail variants; names; data-table physical/size/authentication/dataFormat/recordDelimiter (both places)/"
                          "numberOfRecords/entityDescription variants; descriptions under 11 parents and as root) + random rich datasets + drop/dup/rename/"
                          "clear/move mutants + tests/data/eml.xml; non-trivial = distinct (tree, evaluated node) with at least one dispatched element")
+    import time
+    t_build = time.time()
     cases, wants, metas = [], [], []
     n_valid = n_shape = n_stmt_ok = 0
     all_cases = []
@@ -807,6 +809,7 @@ def run(ctx):
     ctx.count("trees_passing_validation", n_valid)
     ctx.count("trees_satisfying_shape_ok", n_shape)
     ctx.count("statement_holds", n_stmt_ok)
+    t_impl = time.time()
     # (B) in Coq
     sizes = [len(c) + len(w) for c, w in zip(cases, wants)]
     shards, cur, cur_size = [], [], 0
@@ -849,6 +852,8 @@ def run(ctx):
                      {"kind": "broken-correspondence", "theorem": "C19_exact / C19_total (model/implementation correspondence)",
                       "label": label, "tree": root, "path": path, "implementation": {"new": res["new"], "crash": res["crash"], "nodes": res["nodes"]},
                       "model": " ".join(out2.split())[:3000]}, concrete=False)
+    ctx.extra["phase_seconds"] = {"build_incl_lock_wait": round(t_build - ctx.t0, 1), "implementation+oracle": round(t_impl - t_build, 1),
+                                  "coq_cases": round(time.time() - t_impl, 1)}
     ctx.extra["traces_validated_against_impl"] = agreed
     ctx.extra["spec_compared_on_shape_ok_trees"] = spec_checked
     if not built:
